@@ -161,7 +161,7 @@ def make_harness(params: Dict[str, Any], direction: str = "never-rejects-valid")
 def shards(tier: str) -> List[Dict[str, Any]]:
     out = []
     for model in c08.MODELS:
-        if model.startswith(("may-reject:", "verification-only:")) or not c08.MODELS[model].exists():
+        if model.startswith(c08.NOT_FOR_SERIALIZATION) or not c08.MODELS[model].exists():
             continue
         for kind, name, focus in c08._targets(model):
             if kind != "class":
@@ -215,7 +215,7 @@ def extra_checks(tier: str) -> Dict[str, Any]:
     errors: List[str] = []
     n = 0
     for model in c08.MODELS:
-        if model.startswith(("may-reject:", "verification-only:")) or not c08.MODELS[model].exists():
+        if model.startswith(c08.NOT_FOR_SERIALIZATION) or not c08.MODELS[model].exists():
             continue
         schema, _ = schema_of(model)
         n += 1
@@ -252,7 +252,7 @@ def extra_checks(tier: str) -> Dict[str, Any]:
                     errors.append(f"schema of {model} uses vocabulary the oracle does not know: {e}")
                 n += 1
     return {"violations": violations, "errors": errors[:5],
-            "evidence": {"schemas_checked_against_their_draft": len([m for m in c08.MODELS if not m.startswith(("may-reject:", "verification-only:"))]),
+            "evidence": {"schemas_checked_against_their_draft": len([m for m in c08.MODELS if not m.startswith(c08.NOT_FOR_SERIALIZATION)]),
                          "validator_cross_checks_against_the_jsonschema_library": n, "evaluations": n, "distinct_nontrivial": n}}
 
 
